@@ -129,7 +129,8 @@ func closeUnderReductions(f *gen.Family, lists []gen.List) []gen.List {
 // C03 — local state and lexical scoping survive suspension.
 func C03(tier string) *core.Report {
 	r := core.NewReport("C03", tier)
-	fams := append(VarFamilies(tier), consGenFamily(tier))
+	// YEXPR: operands that read locals, fields, elements the generator updates right after the yield
+	fams := append(VarFamilies(tier), consGenFamily(tier), yexprFamily(tier))
 	for _, fr := range runFamilies(r, fams, tier) {
 		for _, f := range fr.Divergences("lockstep", "panic", "lockstep-under-panic", "fatal", "nondet", "nondet-ref") {
 			r.Fail(f)
